@@ -42,13 +42,18 @@ def minimise(binary, prog, still_fails):
     return cur
 
 
-def judge(binary, lines, timeout=600):
-    obs, crashes, se = core.run_harness_resilient(binary, "exec", lines, timeout=timeout)
+def judge(binary, lines, timeout=600, events=False, shards=None):
+    env = core.goenv()
+    if events:
+        env["VERIF_EVENTS"] = "1"
+    if shards:
+        env["VERIF_SHARDS"] = str(shards)
+    obs, crashes, se = core.run_harness_resilient(binary, "exec", lines, timeout=timeout, env=env)
     d = core.run_driver(obs)
     return obs, d, crashes, se
 
 
-def run_exec_suite(R, ctx, name, gens, nprog, corpus, what, keys=None, maxlen=40, extra_lines=None):
+def run_exec_suite(R, ctx, name, gens, nprog, corpus, what, keys=None, maxlen=40, extra_lines=None, events=False, shards=None):
     R.rule = ("programs: 1-%d commands over a small colliding key alphabet (case variants, empty key, CR/LF and binary keys), generated from the "
               "command family's grammar with mostly-valid arguments plus arity/option damage; after every command the reply bytes and the dump of "
               "the touched keys (every 10th command and the last: the whole keyspace and its counter) are compared with the Lean model. "
@@ -64,7 +69,24 @@ def run_exec_suite(R, ctx, name, gens, nprog, corpus, what, keys=None, maxlen=40
     lines += execgen.programs(rng, n, gens, maxlen=maxlen, keys=keys or execgen.KEYS)
     if extra_lines:
         lines += extra_lines
-    obs, d, crashes, se = judge(binary, lines)
+    if shards:
+        # the same programs under several stripe counts (colliding stripes); results concatenated
+        obs, crashes, se, mism, unk, secs, pos_total = [], 0, "", [], [], 0.0, 0
+        for sh in shards:
+            o, dd, c, s_ = judge(binary, lines, events=events, shards=sh)
+            off = len(obs)
+            for m in dd["mismatches"]:
+                f = m.split(" ", 2)
+                mism.append("%s %d %s" % (f[0], int(f[1]) + off, f[2]))
+            unk += dd["unknown"]
+            obs += o
+            crashes += c
+            se = s_ or se
+            secs += dd["seconds"]
+            pos_total += int(dd["summary"].get("positive", 0))
+        d = dict(mismatches=mism, unknown=unk, seconds=secs, summary=dict(positive=str(pos_total)))
+    else:
+        obs, d, crashes, se = judge(binary, lines, events=events)
     dist = collections.Counter(cmd_of(l) for l in obs if l.startswith("X"))
     errs = sum(1 for l in obs if " => " in l and l.split(" => ")[1].split()[2:3] and l.split(" => ")[1].split()[2].startswith("2d"))
     distinct = len(set(l.split(" => ")[0].split(" ", 2)[2] for l in obs if l.startswith("X") and len(l.split(" => ")[0].split(" ", 2)) > 2))
@@ -91,7 +113,7 @@ def run_exec_suite(R, ctx, name, gens, nprog, corpus, what, keys=None, maxlen=40
         prog = program_of(obs, lineno) if lineno else []
 
         def still_fails(cand):
-            o2, d2, c2, _ = judge(binary, cand, timeout=60)
+            o2, d2, c2, _ = judge(binary, cand, timeout=60, events=events, shards=(shards[0] if shards else None))
             return any(int(m.split()[1]) == len(cand) for m in d2["mismatches"] if m.split()[1].isdigit()) or c2 > 0
         if prog and len(prog) <= 60:
             try:
@@ -101,7 +123,7 @@ def run_exec_suite(R, ctx, name, gens, nprog, corpus, what, keys=None, maxlen=40
         final = mm
         if prog:
             try:
-                _o, _d, _c, _ = judge(binary, prog, timeout=60)
+                _o, _d, _c, _ = judge(binary, prog, timeout=60, events=events, shards=(shards[0] if shards else None))
                 if _d["mismatches"]:
                     final = _d["mismatches"][-1]
             except Exception:
